@@ -17,43 +17,63 @@ EXTENDS ViewsBase
 
 CONSTANTS ViewIds,
           MaxEvents,
-          SharedSlot
+          SharedSlot,
+          ArgAliased     \* the view keeps the caller's collection object instead of its contents (the tree before finding F46):
+                         \* what the caller does to that object afterwards - or the view's own membership tests, when the
+                         \* object is a one-shot iterator - changes the filter
 
 VARIABLES doc,     \* the parsed file (never changes)
           views,   \* view id -> its filter, or NoView
           slot,    \* the attribute slot on the wrapped parser (SharedSlot deviation)
+          arg,     \* view id -> the collection object the caller passed: [S, kind], kind "list" (can grow later) | "iter" (one-shot)
           last,    \* last read: [id, list, result]
           n
 
-vars == <<doc, views, slot, last, n>>
+vars == <<doc, views, slot, arg, last, n>>
 NoView == [mode |-> "none", S |-> {}]
 
 -----------------------------------------------------------------------------
 (* the implementation: FilteredConfigParser *)
+NoArg == [S |-> {}, kind |-> "none"]
 Init == /\ doc \in Docs /\ views = [x \in ViewIds |-> NoView] /\ slot = NoView /\ n = 0
+        /\ arg = [x \in ViewIds |-> NoArg]
         /\ last = [id |-> 0, list |-> "none", v |-> NoView, result |-> <<>>]
 
-Create(id, v) == /\ n < MaxEvents
-                 /\ views' = [views EXCEPT ![id] = v]
-                 /\ slot' = v                      \* self._species_list = ... ; self._exclude_flag = ...
-                 /\ n' = n + 1
-                 /\ UNCHANGED <<doc, last>>
+Create(id, v, kind) == /\ n < MaxEvents
+                       /\ views' = [views EXCEPT ![id] = v]
+                       /\ slot' = v                      \* self._species_list = ... ; self._exclude_flag = ...
+                       /\ arg' = [arg EXCEPT ![id] = [S |-> v.S, kind |-> kind]]
+                       /\ n' = n + 1
+                       /\ UNCHANGED <<doc, last>>
 
-EffectiveFilter(id) == IF SharedSlot THEN slot ELSE views[id]
+\* the caller goes on using the list it passed (e.g. builds the views of a loop from one growing list)
+GrowArg(id, sp) == /\ n < MaxEvents /\ views[id] # NoView /\ arg[id].kind = "list" /\ sp \notin arg[id].S
+                   /\ arg' = [arg EXCEPT ![id].S = @ \cup {sp}]
+                   /\ n' = n + 1
+                   /\ UNCHANGED <<doc, views, slot, last>>
+
+EffectiveFilter(id) == IF SharedSlot THEN slot
+                       ELSE IF ArgAliased THEN [mode |-> views[id].mode, S |-> arg[id].S]
+                       ELSE views[id]
+\* membership tests on a one-shot iterator use it up (abstractly: nothing is left after a read)
+ArgAfterRead(id) == IF ArgAliased /\ arg[id].kind = "iter" THEN [arg EXCEPT ![id].S = {}] ELSE arg
 
 \* _check_tuple over every entry of the wrapped parser's list
 Read(id, l) == /\ n < MaxEvents /\ views[id] # NoView
                /\ last' = [id |-> id, list |-> l, v |-> views[id], result |-> Filter(doc[l], EffectiveFilter(id))]
+               /\ arg' = ArgAfterRead(id)
                /\ n' = n + 1
                /\ UNCHANGED <<doc, views, slot>>
 
 \* Configuration().read_from_parser(view) and write(): the builders read all three lists of the view
 Tabulate(id) == /\ n < MaxEvents /\ views[id] # NoView
                 /\ last' = [id |-> id, list |-> "table", v |-> views[id], result |-> DeleteMentioning(doc, EffectiveFilter(id))]
+                /\ arg' = ArgAfterRead(id)
                 /\ n' = n + 1
                 /\ UNCHANGED <<doc, views, slot>>
 
-Next == \/ \E id \in ViewIds, v \in ViewSpace : Create(id, v)
+Next == \/ \E id \in ViewIds, v \in ViewSpace, kind \in {"list", "iter"} : Create(id, v, kind)
+        \/ \E id \in ViewIds, sp \in Species : GrowArg(id, sp)
         \/ \E id \in ViewIds, l \in Lists : Read(id, l)
         \/ \E id \in ViewIds : Tabulate(id)
 Spec == Init /\ [][Next]_vars
